@@ -198,6 +198,20 @@ class Check:
             return None
         return {b: os.path.join(CACHE, "target", "release", b) for b in bins}
 
+    def build_repo_bin(self, package, bin_name, features=None):
+        """build one of /repo's own binaries (emmylua_check, emmylua_doc_cli, luafmt, emmylua_ls, schema_to_emmylua)
+        from the current working tree into the shared target dir; returns its path or None (tie broken)"""
+        cmd = ["cargo", "build", "--release", "--offline", "--manifest-path", os.path.join(REPO, "Cargo.toml"),
+               "-p", package, "--bin", bin_name]
+        if features:
+            cmd += ["--features", features]
+        self.log("cargo build (repo binary)", package, bin_name)
+        rc, out, err = sh(cmd, cwd=REPO, env=env_base(), timeout=3600)
+        if rc != 0:
+            self.broken.append({"kind": "tie", "what": "/repo binary %s no longer builds" % bin_name, "detail": err[-6000:]})
+            return None
+        return os.path.join(CACHE, "target", "release", bin_name)
+
     def run_bin(self, path, args, input=None, timeout=1800, env_extra=None):
         e = env_base()
         if env_extra:
